@@ -73,8 +73,8 @@ def related_pair(draw):
 
 
 _HPATHS = ["/r1/a", "/r1/ab", "/r1/a/b", "/r1foo/x", "/r1/", "/r1", "/r2/foo", "/r2/foo/bar", "/r2/foobar", "/x",
-           "rel/a", "a", "", "/r1//a", "/r1/../x", "/"]
-_HROOTS = ["/r1", "/r1/", "/r2/foo", "/r2/foo/", "/r1/a", "/", "/r1//", "/nowhere", "r1"]
+           "rel/a", "rel/a/b", "rel", "a", "", "/r1//a", "/r1/../x", "/"]
+_HROOTS = ["/r1", "/r1/", "/r2/foo", "/r2/foo/", "/r1/a", "/", "/r1//", "/nowhere", "r1", "rel", "rel/"]
 
 
 @st.composite
